@@ -300,14 +300,19 @@ Definition layer_flow (k : lkind) (data : list Z) : outcome flow :=
     if (n <? 8)%nat then Panic 16 else table_flow k data
   end.
 
-(* swap the two adjacent equal-width address fields of a header *)
+(* swap the two adjacent equal-width address fields of a header (the other direction of the
+   same conversation); headers too short to contain both fields are left alone *)
+Definition swap_at (lo w : nat) (data : list Z) : list Z :=
+  if (length data <? lo + w + w)%nat then data
+  else firstn lo data ++ field data (lo + w) w ++ field data lo w ++ skipn (lo + w + w) data.
 Definition swap_fields (k : lkind) (data : list Z) : list Z :=
   match flow_table k with
-  | Some (_, so, do, w) =>
-    let lo := Nat.min so do in
-    firstn lo data ++ field data (lo + w) w ++ field data lo w ++ skipn (lo + w + w) data
+  | Some (_, so, do, w) => swap_at (Nat.min so do) w data
   | None => data
   end.
+
+Definition omap {A B} (g : A -> B) (o : outcome A) : outcome B :=
+  match o with Ok v => Ok (g v) | Err c => Err c | Panic s => Panic s end.
 
 (* ------------------------------------------------------------------------- *)
 (* the operation interpreter run by the correspondence check *)
